@@ -416,6 +416,10 @@ def run(tier, seed, replay):
                 attempt("norm.l2", lambda: _data.norm.l2(XA), [fa], None, np.linalg.norm(A), data=data)
             if r == c and r <= 4:
                 attempt("norm.trace", lambda: _data.norm.trace(XA), [fa], None, np.linalg.svd(A, compute_uv=False).sum(), tol=1e-7, data=data)
+            else:
+                # rectangular and larger operands: the sparse route takes square roots of eigenvalues of X X+ and carries
+                # about 1e-8 of noise per vanishing eigenvalue
+                attempt("norm.trace", lambda: _data.norm.trace(XA), [fa], None, np.linalg.svd(A, compute_uv=False).sum(), tol=2e-6, data=data)
             attempt("iszero", lambda: bool(_data.iszero(XA)), [fa], None, not A.any(), data=data)
             attempt("isdiag", lambda: bool(_data.isdiag(XA)), [fa], None, not (A - np.diag(np.diag(A)) if r == c else A * (1 - np.eye(r, c))).any(), data=data)
             if r == c:
